@@ -140,6 +140,9 @@ def parse_ev(line):
     return int(f[0]), f[1], [int(x) for x in f[2:]]
 
 
+# 9014: the harness descheduled a library goroutine between two statements; no promptness bound is claimed for such a run
+ENV_STALL = 9014
+PROMPT = {301, 302, 303, 304, 601, 905, 1810, 1002, 1003, 1102, 1103, 1107, 1202, 1203, 1205, 1902}
 OVERDUE = {301, 302, 303, 304, 601, 1002, 1003, 1102, 1103, 1107, 1202, 1203, 1205, 1902}
 
 
@@ -294,7 +297,8 @@ def _evaluate(pid, d, res, results, tier):
         applicable = not (env & d["env_excl"])
         if applicable:
             n_applicable += 1
-        hits = [(i, c) for i, c in r["alarms"] if c in d["codes"] and not (env & d["code_env"].get(c, set()))]
+        hits = [(i, c) for i, c in r["alarms"] if c in d["codes"] and not (env & d["code_env"].get(c, set()))
+                and not (ENV_STALL in env and c in PROMPT)]
         if r["verdict"] != "ok" and pid in ("C09", "C13", "C11"):
             code = {"C09": 906, "C13": 1304, "C11": 1105}[pid] if r["verdict"] == "crash" else {"C09": 907, "C13": 1305, "C11": 1106}[pid]
             hits.append((max(0, r["n_events"] - 1), code))
